@@ -189,3 +189,31 @@ package rules
 //@   ensures len(mixedCIDRs) > 0 && !res1 ==> len(res0) > 0
 //@   loop 1 invariant -1 <= rangeindex && rangeindex < len(mixedCIDRs) && len(mixedCIDRs) > 0 && wantV6 == (ipVersion == 6) && filteredAll == (len(filtered) == 0) && len(filtered) <= cap(filtered) && (cap(filtered) > 0 ==> fresh(filtered))
 //@   loop 1 invariant forall i int :: 0 <= i && i < len(filtered) ==> netWanted(filtered[i], ipVersion) && !(isNegated && netCatchAll(filtered[i], ipVersion))
+
+//@ -- ---------------------------------------------------------------- C09: policy-group chains
+//@ -- One arbitrary packet is followed through the group chain (ghost c09Mark: its pass/accept bits; c09Ret: it
+//@ -- has returned to the endpoint chain).  A staged policy is never programmed; a policy chain is entered only
+//@ -- while no earlier policy of the group has made a verdict (pass or accept bit set): every fifth jump is
+//@ -- preceded by a "return on verdict" rule and the jumps in between are guarded by "both bits clear".
+//@ ghost c09Mark uint32
+//@ ghost c09Ret bool
+//@ ghost c09Fire bool
+//@ spec func polVerdict(chain string) uint32
+//@ func (*DefaultRuleRenderer).PolicyGroupToIptablesChains
+//@   property C09
+//@   option safety off
+//@   option stable (*Config).MarkPass, (*Config).MarkAccept, (*types.PolicyID).Kind, (*PolicyGroup).Policies, []*types.PolicyID
+//@   requires r != nil && group != nil && !c09Ret && c09Fire && (c09Mark & (r.Config.MarkPass | r.Config.MarkAccept)) == 0
+//@   ghost at call MarkNotClear: c09Fire = (c09Mark & arg1 != 0)
+//@   ghost at call MarkClear: c09Fire = (c09Mark & arg1 == 0)
+//@   ghost at call Return: c09Ret = c09Ret || c09Fire ; c09Fire = true
+//@   ghost at call PolicyChainName: check !kindStaged(arg1.Kind)
+//@   ghost at call Jump: check c09Ret || !c09Fire || (c09Mark & (r.Config.MarkPass | r.Config.MarkAccept)) == 0 ; c09Mark = (c09Ret || !c09Fire) ? c09Mark : (c09Mark | (polVerdict(arg1) & (r.Config.MarkPass | r.Config.MarkAccept))) ; c09Fire = true
+//@   loop 1 invariant c09Fire && (count == -1 ==> (c09Ret || (c09Mark & (r.Config.MarkPass | r.Config.MarkAccept)) == 0)) && count >= -1 && count <= rangeindex && rangeindex < len(group.Policies)
+
+//@ func (*PolicyGroup).HasNonStagedPolicies
+//@   property C09
+//@   option safety off
+//@   requires g != nil
+//@   ensures res == (exists i int :: 0 <= i && i < len(g.Policies) && !kindStaged(g.Policies[i].Kind))
+//@   loop 1 invariant -1 <= rangeindex && rangeindex < len(g.Policies) && (forall i int :: 0 <= i && i <= rangeindex ==> kindStaged(g.Policies[i].Kind))
